@@ -283,11 +283,10 @@ theorem beforeTrial_free (n : Nat) (st : St) (hinv : GInv n st) (hns : st.stop =
     have := mem_unvisitedOf n _ _ _ hpick
     exact ⟨this.1, this.2, Or.inr (by omega)⟩
 
-/-- `after_trial` of a fresh grid trial: `study.stop()` iff its cell was the last free one; never a
-KeyError -/
+/-- `after_trial` of a fresh grid trial: `study.stop()` iff its cell was the last free one -/
 theorem afterTrial_fresh (n : Nat) (ts : List GTrial) (g : Nat) (hg : g < n) (hgV : g ∉ visitedIds ts) :
     afterTrial n (ts ++ [⟨some g, .running⟩]) (some g) =
-      some (decide (remainingG n (visitedIds ts ++ [g]) = 0)) := by
+      decide (remainingG n (visitedIds ts ++ [g]) = 0) := by
   have hlast := unvisitedOf_last n (visitedIds ts) (runningIds ts ++ [g]) g hg hgV (by simp)
   have hrem : 0 < remainingG n (visitedIds ts) := by
     have := remainingG_snoc n (visitedIds ts) g hg hgV
@@ -320,41 +319,109 @@ theorem afterTrial_fresh (n : Nat) (ts : List GTrial) (g : Nat) (hg : g < n) (hg
       simp at h1
     simp [this]
 
-/-- `after_trial` of a trial without grid id while something is still free: never `study.stop()` -/
+/-- `after_trial` of a trial without grid id (an enqueued one) while something is still free:
+never `study.stop()` — and, since the repair of `after_trial`, never an error -/
 theorem afterTrial_noId (n : Nat) (ts : List GTrial) (hrem : 0 < remainingG n (visitedIds ts)) :
-    afterTrial n ts none = none ∨ afterTrial n ts none = some false := by
+    afterTrial n ts none = false := by
   have hne : unvisited n ts ≠ [] := unvisitedOf_ne_nil n (visitedIds ts) (runningIds ts) hrem
   have hlen0 : ¬ ((unvisited n ts).length = 0) := fun h => hne (List.length_eq_zero_iff.mp h)
   simp only [afterTrial]
   rw [if_neg hlen0]
   by_cases h1 : (unvisited n ts).length = 1
-  · rw [if_pos h1]; left; rfl
-  · rw [if_neg h1]; right; rfl
+  · rw [if_pos h1]
+  · rw [if_neg h1]
 
 /-- the grid id a fresh trial of `st` gets -/
 def freshId (cx : Ctx) (n : Nat) (st : St) : Nat :=
   (beforeTrial n st.trials st.trials.length (cx.ω st.calls)).1
 
-theorem runTrial_fresh_eq (cx : Ctx) (n : Nat) (st : St) (hfw : firstWaiting st.trials = none) (s : Bool)
-    (hafter : afterTrial n (st.trials ++ [⟨some (freshId cx n st), .running⟩]) (some (freshId cx n st)) = some s) :
+theorem runTrial_fresh_eq (cx : Ctx) (n : Nat) (st : St) (hfw : firstWaiting st.trials = none) :
     (runTrial cx n st).1.trials = st.trials ++ [⟨some (freshId cx n st), .finished⟩] ∧
-    (runTrial cx n st).1.stop = (st.stop || s) ∧
-    (runTrial cx n st).1.crashed = st.crashed ∧
+    (runTrial cx n st).1.stop = (st.stop ||
+      afterTrial n (st.trials ++ [⟨some (freshId cx n st), .running⟩]) (some (freshId cx n st))) ∧
     (runTrial cx n st).2 = cx.raises st.trials.length := by
-  simp only [freshId] at hafter
-  simp only [runTrial, hfw, hafter, freshId, and_self]
+  simp only [runTrial, hfw, freshId, and_self]
 
 theorem runTrial_waiting_eq (cx : Ctx) (n : Nat) (st : St) (i : Nat) (hfw : firstWaiting st.trials = some i)
     (hcur : (st.trials[i]?).bind (·.gridId) = none) :
     (runTrial cx n st).1.trials = setState st.trials i .finished ∧
-    ((afterTrial n (setState st.trials i .running) none = none ∧
-        (runTrial cx n st).1.stop = st.stop ∧ (runTrial cx n st).1.crashed = true) ∨
-     (∃ s, afterTrial n (setState st.trials i .running) none = some s ∧
-        (runTrial cx n st).1.stop = (st.stop || s) ∧ (runTrial cx n st).1.crashed = st.crashed)) := by
-  simp only [runTrial, hfw, hcur]
-  cases h : afterTrial n (setState st.trials i .running) none with
-  | none => simp
-  | some s => simp
+    (runTrial cx n st).1.stop = (st.stop || afterTrial n (setState st.trials i .running) none) ∧
+    (runTrial cx n st).2 = cx.raises i := by
+  simp only [runTrial, hfw, hcur, and_self]
+
+/-! ### counting WAITING and finished trials -/
+
+def nWaiting (ts : List GTrial) : Nat := (ts.filter (fun t => t.state = .waiting)).length
+
+/-- trials in a finished state, with or without grid id -/
+def nDone (ts : List GTrial) : Nat := (ts.filter (fun t => t.state = .finished)).length
+
+theorem nWaiting_zero_iff (ts : List GTrial) : nWaiting ts = 0 ↔ ∀ t ∈ ts, t.state ≠ .waiting := by
+  simp [nWaiting, List.filter_eq_nil_iff]
+
+theorem firstWaiting_none_iff (ts : List GTrial) : firstWaiting ts = none ↔ nWaiting ts = 0 := by
+  constructor
+  · intro h
+    rw [nWaiting_zero_iff]
+    intro t ht hw
+    induction ts with
+    | nil => simp at ht
+    | cons a ts ih =>
+      simp only [firstWaiting] at h
+      split at h
+      · simp at h
+      · rename_i ha
+        simp only [Option.map_eq_none_iff] at h
+        simp only [List.mem_cons] at ht
+        rcases ht with ht | ht
+        · subst ht; exact ha hw
+        · exact ih h ht
+  · intro h
+    exact firstWaiting_none ts ((nWaiting_zero_iff ts).mp h)
+
+theorem nWaiting_cons (a : GTrial) (ts : List GTrial) :
+    nWaiting (a :: ts) = (if a.state = .waiting then 1 else 0) + nWaiting ts := by
+  simp only [nWaiting, List.filter_cons]
+  by_cases h : a.state = .waiting <;> simp [h] <;> omega
+
+theorem nDone_cons (a : GTrial) (ts : List GTrial) :
+    nDone (a :: ts) = (if a.state = .finished then 1 else 0) + nDone ts := by
+  simp only [nDone, List.filter_cons]
+  by_cases h : a.state = .finished <;> simp [h] <;> omega
+
+theorem counts_setState_finished (ts : List GTrial) : ∀ (i : Nat) (t : GTrial), ts[i]? = some t →
+    t.state = .waiting →
+    nWaiting (setState ts i .finished) + 1 = nWaiting ts ∧ nDone (setState ts i .finished) = nDone ts + 1 := by
+  induction ts with
+  | nil => intro i t h; simp at h
+  | cons a ts ih =>
+    intro i t h hw
+    cases i with
+    | zero =>
+      simp only [List.getElem?_cons_zero, Option.some.injEq] at h
+      subst h
+      simp only [setState, updAt]
+      rw [nWaiting_cons, nWaiting_cons, nDone_cons, nDone_cons]
+      simp [hw]
+      omega
+    | succ i =>
+      have := ih i t (by simpa using h) hw
+      simp only [setState, updAt] at this ⊢
+      rw [nWaiting_cons, nWaiting_cons, nDone_cons, nDone_cons]
+      omega
+
+theorem counts_snoc_finished (ts : List GTrial) (g : Option Nat) :
+    nWaiting (ts ++ [⟨g, .finished⟩]) = nWaiting ts ∧ nDone (ts ++ [⟨g, .finished⟩]) = nDone ts + 1 := by
+  simp [nWaiting, nDone, List.filter_append]
+
+/-- The run invariant with its counters: `L` = (number of trials + number of free cells), which a
+run never changes; and once no cell is free nobody is WAITING (queued trials are popped first). -/
+structure GInv3 (n L : Nat) (st : St) : Prop extends GInv n st where
+  lenInv : st.trials.length + remainingG n (visitedIds st.trials) = L
+  queueFirst : remainingG n (visitedIds st.trials) = 0 → nWaiting st.trials = 0
+
+/-- what is still to do: the queue, then the free cells -/
+def todo (n : Nat) (st : St) : Nat := nWaiting st.trials + remainingG n (visitedIds st.trials)
 
 theorem runTrial_ginv (cx : Ctx) (n : Nat) (st : St) (hinv : GInv n st) (hns : st.stop = false) :
     GInv n (runTrial cx n st).1 := by
@@ -374,15 +441,8 @@ theorem runTrial_ginv (cx : Ctx) (n : Nat) (st : St) (hinv : GInv n st) (hns : s
     have hv2 : visitedIds (setState st.trials i .finished) = visitedIds st.trials :=
       visitedIds_setState _ _ _ hnone
     have hafter := afterTrial_noId n (setState st.trials i .running) (by rw [hv1]; exact hrem)
-    obtain ⟨htr, hres⟩ := runTrial_waiting_eq cx n st i hfw hcur
-    have hstop : (runTrial cx n st).1.stop = st.stop := by
-      rcases hres with ⟨_, h2, _⟩ | ⟨s, h1, h2, _⟩
-      · exact h2
-      · rcases hafter with h | h
-        · rw [h] at h1; simp at h1
-        · rw [h] at h1
-          simp only [Option.some.injEq] at h1
-          rw [h2, ← h1]; simp
+    obtain ⟨htr, hst, _⟩ := runTrial_waiting_eq cx n st i hfw hcur
+    have hstop : (runTrial cx n st).1.stop = st.stop := by rw [hst, hafter]; simp
     constructor
     · intro j t' g hj hg
       rw [htr, setState_getElem?] at hj
@@ -403,7 +463,7 @@ theorem runTrial_ginv (cx : Ctx) (n : Nat) (st : St) (hinv : GInv n st) (hns : s
   | none =>
     obtain ⟨hlt, hnv, hnum⟩ := beforeTrial_free n st hinv hns (cx.ω st.calls)
     have hafter := afterTrial_fresh n st.trials (freshId cx n st) hlt hnv
-    obtain ⟨htr, hst, _, _⟩ := runTrial_fresh_eq cx n st hfw _ hafter
+    obtain ⟨htr, hst, _⟩ := runTrial_fresh_eq cx n st hfw
     constructor
     · intro i t g hi hg
       rw [htr] at hi
@@ -435,7 +495,7 @@ theorem runTrial_ginv (cx : Ctx) (n : Nat) (st : St) (hinv : GInv n st) (hns : s
       rcases ht with ht | ht
       · exact hinv.waitingNoId t ht hw
       · subst ht; simp at hw
-    · rw [hst, htr, visitedIds_snoc_finished, hns]
+    · rw [hst, hafter, htr, visitedIds_snoc_finished, hns]
       simp
 
 theorem optimizeLoop_ginv (cx : Ctx) (n : Nat) (k : Nat) : ∀ (st : St), GInv n st →
@@ -482,35 +542,53 @@ theorem session_ginv (cx : Ctx) (n : Nat) (ks : List Nat) : ∀ (st : St), GInv 
       rw [optimize_of_not_stop cx n k st hs]
       exact ih _ (optimizeLoop_ginv cx n k st h)
 
-/-! ## without a queue of enqueued trials: no KeyError, and how many trials a call runs -/
+/-! ## how many trials a run takes (enqueued trials waiting in the queue included) -/
 
-/-- additional invariant: nobody is WAITING and the sampler never raised -/
-structure GInv2 (n : Nat) (st : St) : Prop extends GInv n st where
-  noQueue : ∀ t ∈ st.trials, t.state ≠ .waiting
-  noCrash : st.crashed = false
-
-theorem runTrial_ginv2 (cx : Ctx) (n : Nat) (st : St) (hinv : GInv2 n st) (hns : st.stop = false) :
-    GInv2 n (runTrial cx n st).1 ∧
-    (runTrial cx n st).1.trials.length = st.trials.length + 1 ∧
-    remainingG n (visitedIds (runTrial cx n st).1.trials) + 1 = remainingG n (visitedIds st.trials) ∧
-    (runTrial cx n st).2 = cx.raises st.trials.length := by
+/-- one `_run_trial` from a state that has not stopped: one more finished trial, one thing less to do -/
+theorem runTrial_ginv3 (cx : Ctx) (n L : Nat) (st : St) (hinv : GInv3 n L st) (hns : st.stop = false) :
+    GInv3 n L (runTrial cx n st).1 ∧
+    todo n (runTrial cx n st).1 + 1 = todo n st ∧
+    nDone (runTrial cx n st).1.trials = nDone st.trials + 1 ∧
+    (∃ i, (runTrial cx n st).2 = cx.raises i) := by
   have hbase := runTrial_ginv cx n st hinv.toGInv hns
-  have hfw := firstWaiting_none st.trials hinv.noQueue
-  obtain ⟨hlt, hnv, _⟩ := beforeTrial_free n st hinv.toGInv hns (cx.ω st.calls)
-  have hafter := afterTrial_fresh n st.trials (freshId cx n st) hlt hnv
-  obtain ⟨htr, _, hcr, hrs⟩ := runTrial_fresh_eq cx n st hfw _ hafter
-  refine ⟨⟨hbase, ?_, by rw [hcr]; exact hinv.noCrash⟩, by rw [htr]; simp, ?_, hrs⟩
-  · rw [htr]
-    intro t ht
-    simp only [List.mem_append, List.mem_singleton] at ht
-    rcases ht with ht | ht
-    · exact hinv.noQueue t ht
-    · subst ht; simp
-  · rw [htr, visitedIds_snoc_finished]
-    exact remainingG_snoc n _ _ hlt hnv
+  have hrem : 0 < remainingG n (visitedIds st.trials) := by
+    rcases Nat.eq_zero_or_pos (remainingG n (visitedIds st.trials)) with h | h
+    · have := hinv.stop.mpr h; rw [hns] at this; simp at this
+    · exact h
+  cases hfw : firstWaiting st.trials with
+  | some i =>
+    obtain ⟨t, hti, htw⟩ := firstWaiting_spec _ _ hfw
+    have hnoid : t.gridId = none := hinv.waitingNoId t (List.mem_of_getElem? hti) htw
+    have hnone : ∀ t', st.trials[i]? = some t' → t'.gridId = none := by
+      intro t' ht'; rw [hti] at ht'; simp only [Option.some.injEq] at ht'; subst ht'; exact hnoid
+    have hcur : (st.trials[i]?).bind (·.gridId) = none := by simp [hti, hnoid]
+    have hv2 : visitedIds (setState st.trials i .finished) = visitedIds st.trials :=
+      visitedIds_setState _ _ _ hnone
+    obtain ⟨htr, _, hrs⟩ := runTrial_waiting_eq cx n st i hfw hcur
+    obtain ⟨hc1, hc2⟩ := counts_setState_finished st.trials i t hti htw
+    have hlen : (setState st.trials i .finished).length = st.trials.length := by simp [setState]
+    refine ⟨⟨hbase, ?_, ?_⟩, ?_, ?_, ⟨i, hrs⟩⟩
+    · rw [htr, hv2, hlen]; exact hinv.lenInv
+    · rw [htr, hv2]; intro h0; omega
+    · simp only [todo]; rw [htr, hv2]; omega
+    · rw [htr]; exact hc2
+  | none =>
+    obtain ⟨hlt, hnv, _⟩ := beforeTrial_free n st hinv.toGInv hns (cx.ω st.calls)
+    obtain ⟨htr, _, hrs⟩ := runTrial_fresh_eq cx n st hfw
+    have hw0 : nWaiting st.trials = 0 := (firstWaiting_none_iff _).mp hfw
+    obtain ⟨hc1, hc2⟩ := counts_snoc_finished st.trials (some (freshId cx n st))
+    have hstep := remainingG_snoc n (visitedIds st.trials) (freshId cx n st) hlt hnv
+    have hL := hinv.lenInv
+    refine ⟨⟨hbase, ?_, ?_⟩, ?_, ?_, ⟨_, hrs⟩⟩
+    · rw [htr, visitedIds_snoc_finished]
+      simp only [List.length_append, List.length_singleton]
+      omega
+    · rw [htr, hc1]; intro _; exact hw0
+    · simp only [todo]; rw [htr, hc1, visitedIds_snoc_finished]; omega
+    · rw [htr]; exact hc2
 
-theorem optimizeLoop_ginv2 (cx : Ctx) (n : Nat) (k : Nat) : ∀ (st : St), GInv2 n st →
-    GInv2 n (optimizeLoop cx n k st) := by
+theorem optimizeLoop_ginv3 (cx : Ctx) (n L : Nat) (k : Nat) : ∀ (st : St), GInv3 n L st →
+    GInv3 n L (optimizeLoop cx n k st) := by
   induction k with
   | zero => intro st h; exact h
   | succ k ih =>
@@ -519,14 +597,14 @@ theorem optimizeLoop_ginv2 (cx : Ctx) (n : Nat) (k : Nat) : ∀ (st : St), GInv2
     cases hs : st.stop with
     | true => simpa using h
     | false =>
-      have := (runTrial_ginv2 cx n st h hs).1
+      have := (runTrial_ginv3 cx n L st h hs).1
       simp only [Bool.false_eq_true, if_false]
       split
       · exact this
       · exact ih _ this
 
-theorem session_ginv2 (cx : Ctx) (n : Nat) (ks : List Nat) : ∀ (st : St), GInv2 n st →
-    GInv2 n (session cx n ks st) := by
+theorem session_ginv3 (cx : Ctx) (n L : Nat) (ks : List Nat) : ∀ (st : St), GInv3 n L st →
+    GInv3 n L (session cx n ks st) := by
   induction ks with
   | nil => intro st h; exact h
   | cons k ks ih =>
@@ -537,14 +615,17 @@ theorem session_ginv2 (cx : Ctx) (n : Nat) (ks : List Nat) : ∀ (st : St), GInv
     | false =>
       simp only [Bool.false_eq_true, if_false]
       rw [optimize_of_not_stop cx n k st hs]
-      exact ih _ (optimizeLoop_ginv2 cx n k st h)
+      exact ih _ (optimizeLoop_ginv3 cx n L k st h)
 
-theorem optimizeLoop_count (cx : Ctx) (n : Nat) (hnr : ∀ i, cx.raises i = false) (k : Nat) :
-    ∀ (st : St), GInv2 n st →
-    (optimizeLoop cx n k st).trials.length =
-      st.trials.length + min k (remainingG n (visitedIds st.trials)) ∧
-    remainingG n (visitedIds (optimizeLoop cx n k st).trials) =
-      remainingG n (visitedIds st.trials) - min k (remainingG n (visitedIds st.trials)) := by
+theorem todo_zero_of_stop (n L : Nat) (st : St) (h : GInv3 n L st) (hs : st.stop = true) : todo n st = 0 := by
+  have h0 := h.stop.mp hs
+  have := h.queueFirst h0
+  simp only [todo]; omega
+
+theorem optimizeLoop_count (cx : Ctx) (n L : Nat) (hnr : ∀ i, cx.raises i = false) (k : Nat) :
+    ∀ (st : St), GInv3 n L st →
+    nDone (optimizeLoop cx n k st).trials = nDone st.trials + min k (todo n st) ∧
+    todo n (optimizeLoop cx n k st) = todo n st - min k (todo n st) := by
   induction k with
   | zero => intro st _; simp [optimizeLoop]
   | succ k ih =>
@@ -552,24 +633,26 @@ theorem optimizeLoop_count (cx : Ctx) (n : Nat) (hnr : ∀ i, cx.raises i = fals
     simp only [optimizeLoop]
     cases hs : st.stop with
     | true =>
-      have := h.stop.mp hs
+      have := todo_zero_of_stop n L st h hs
       simp [this]
     | false =>
-      have hrem_pos : 0 < remainingG n (visitedIds st.trials) := by
-        rcases Nat.eq_zero_or_pos (remainingG n (visitedIds st.trials)) with h0 | h0
-        · have := h.stop.mpr h0; rw [hs] at this; simp at this
-        · exact h0
-      obtain ⟨hinv', hlen, hrem, hraise⟩ := runTrial_ginv2 cx n st h hs
+      have hpos : 0 < todo n st := by
+        have : 0 < remainingG n (visitedIds st.trials) := by
+          rcases Nat.eq_zero_or_pos (remainingG n (visitedIds st.trials)) with h0 | h0
+          · have := h.stop.mpr h0; rw [hs] at this; simp at this
+          · exact h0
+        simp only [todo]; omega
+      obtain ⟨hinv', htodo, hdone, ⟨i, hraise⟩⟩ := runTrial_ginv3 cx n L st h hs
       rw [hnr] at hraise
       simp only [Bool.false_eq_true, if_false, hraise]
       obtain ⟨h1, h2⟩ := ih _ hinv'
       rw [h1, h2]
       omega
 
-theorem session_count (cx : Ctx) (n : Nat) (hnr : ∀ i, cx.raises i = false) (ks : List Nat) :
-    ∀ (st : St), GInv2 n st →
-    (session cx n ks st).trials.length =
-      st.trials.length + min ks.sum (remainingG n (visitedIds st.trials)) := by
+theorem session_count (cx : Ctx) (n L : Nat) (hnr : ∀ i, cx.raises i = false) (ks : List Nat) :
+    ∀ (st : St), GInv3 n L st →
+    nDone (session cx n ks st).trials = nDone st.trials + min ks.sum (todo n st) ∧
+    todo n (session cx n ks st) = todo n st - min ks.sum (todo n st) := by
   induction ks with
   | nil => intro st _; simp [session]
   | cons k ks ih =>
@@ -578,16 +661,18 @@ theorem session_count (cx : Ctx) (n : Nat) (hnr : ∀ i, cx.raises i = false) (k
     simp only [List.sum_cons]
     cases hs : st.stop with
     | true =>
-      have h0 := h.stop.mp hs
+      have h0 := todo_zero_of_stop n L st h hs
       simp only [if_true]
-      rw [ih st h, h0]
+      obtain ⟨h1, h2⟩ := ih st h
+      rw [h1, h2, h0]
       simp
     | false =>
       simp only [Bool.false_eq_true, if_false]
       rw [optimize_of_not_stop cx n k st hs]
-      have hinv' := optimizeLoop_ginv2 cx n k st h
-      obtain ⟨h1, h2⟩ := optimizeLoop_count cx n hnr k st h
-      rw [ih _ hinv', h1, h2]
+      have hinv' := optimizeLoop_ginv3 cx n L k st h
+      obtain ⟨h1, h2⟩ := optimizeLoop_count cx n L hnr k st h
+      obtain ⟨h3, h4⟩ := ih _ hinv'
+      rw [h3, h4, h1, h2]
       omega
 
 end OptunaVerif.Grid
